@@ -47,7 +47,13 @@ func fieldPtrOf(e ff.Element) interface{} {
 
 func (h *hist) field(i int) ff.Field {
 	for len(h.fields) <= i {
-		h.fields = append(h.fields, defineField(h.desc))
+		d := h.desc
+		parts := strings.Split(d, ":")
+		if parts[0] == "B" && len(parts) == 4 {
+			d = strings.Join(parts[:3], ":")
+		}
+		f := defineField(d)
+		h.fields = append(h.fields, f)
 	}
 	return h.fields[i]
 }
@@ -316,6 +322,17 @@ func newHist(fd, uSpec, bSpec string) *hist {
 			panic("Quotient: " + err.Error())
 		}
 		h.br[1] = qr
+	}
+	if parts := strings.Split(fd, ":"); parts[0] == "B" && len(parts) == 4 {
+		// binfield.SetVarName: the field variable is renamed AFTER the field and the rings of this history
+		// have been used for parsing once (anything cached per field/ring must notice the new name)
+		bf := h.fields[0].(*binfield.Field)
+		_, _ = bf.ElementFromString("a + 1")
+		_, _ = h.ur[0].PolynomialFromString("(a + 1)" + uVar + " + a")
+		_, _ = h.br[0].PolynomialFromString("(a + 1)" + vx + vy + " + a")
+		if err := bf.SetVarName(unhex(parts[3])); err != nil {
+			panic("SetVarName: " + err.Error())
+		}
 	}
 	return h
 }
